@@ -458,7 +458,54 @@ func twoReferences() {
 	vrt.Observe("res=%v", res)
 }
 
+// sharedReference: one object reference value handed to two goroutines (the
+// usual case: a reference returned by a method is given to a pool of
+// workers); the connection is pooled already, so what is explored, at
+// statement level (bus/proxy.go, bus/session/session.go), is the construction
+// of the two proxies from the same reference and their first calls.
+func sharedReference() {
+	w := start(false)
+	if _, err := w.sess.Object(w.ref); err != nil {
+		vrt.Failf("harness/first-object", "%v", err)
+		return
+	}
+	vrt.Quiesce()
+	vrt.Explore()
+	vrt.SetFine(true)
+	res := make([]int32, 2)
+	errs := make([]error, 2)
+	var ws []*vrt.Thread
+	for i := 0; i < 2; i++ {
+		i := i
+		ws = append(ws, vrt.GoWorker(fmt.Sprintf("g%d", i), func() {
+			p, err := w.sess.Object(w.ref)
+			if err != nil {
+				errs[i] = err
+				return
+			}
+			vrt.SetFine(false)
+			res[i], errs[i] = probe.MakeProbe(w.sess, p).Echo(int32(21 + i))
+		}))
+	}
+	vrt.Quiesce()
+	vrt.SetFine(false)
+	fx.Settle(ws...)
+	for i := range ws {
+		if errs[i] != nil {
+			vrt.Failf("request-failed/Probe-by-reference", "g%d: %v", i, errs[i])
+		} else if res[i] != probe.EchoResult(int32(21+i)) {
+			vrt.Failf("answer-of-another-call/object-reference", "g%d called echo(%d) and received %d", i, 21+i, res[i])
+		}
+	}
+	if n := vnet.OpenClientConns("tcp://b") - 1; n > 1 {
+		vrt.Failf("duplicate-connection/tcp://b", "the session holds %d open connections to tcp://b", n)
+	}
+	vrt.Observe("res=%v", res)
+}
+
 func init() {
+	reg.Register(&reg.Scenario{Property: "C19", Name: "shared-reference-statement-level", Body: sharedReference, Quick: 1, Thorough: 2,
+		Doc: "two goroutines build a proxy from the SAME object reference value (connection already pooled) and call it; bus/proxy.go and bus/session/session.go interleaved at statement level, Go map accesses announced"})
 	reg.Register(&reg.Scenario{Property: "C19", Name: "two-object-references-in-flight", Body: twoReferences, Quick: 1, Thorough: 2,
 		Doc: "two goroutines obtain Object(reference to Probe) from the session and call slow(11) / slow(12), both in flight behind a gate: each receives its own answer over the shared connection"})
 	reg.Register(&reg.Scenario{Property: "C19", Name: "hung-endpoint", Body: hung, Quick: 1, Thorough: 2,
